@@ -151,7 +151,7 @@ class Case:
         return '\n'.join(out) + '\n'
     # -- data directory --
     def materialise(self, path, ldbw_bin):
-        shutil.rmtree(path, ignore_errors=True); os.makedirs(path)
+        shutil.rmtree(path, ignore_errors=True); os.makedirs(path)      # (a nested case is materialised after the blk files of the outer one, see below)
         for n, exts in self.files.items():
             name = self.name_of.get(n, 'blk%05d.dat' % n)
             with open(os.path.join(path, name), 'wb') as f:
@@ -161,7 +161,17 @@ class Case:
                         d = bytes(b ^ k[(o + i) % kl] for i, b in enumerate(d))
                     f.seek(o); f.write(d)
         if self.xor is not None:
-            with open(os.path.join(path, 'xor.dat'), 'wb') as f: f.write(self.xor)
+            kind = getattr(self, 'xor_link', None)
+            if kind is None:
+                with open(os.path.join(path, 'xor.dat'), 'wb') as f: f.write(self.xor)
+            else:
+                # the key file lives elsewhere under another name; xor.dat is an absolute or a relative symbolic link to it
+                os.makedirs(os.path.join(path, 'keys'), exist_ok=True)
+                with open(os.path.join(path, 'keys', 'mainnet-blocks.key'), 'wb') as f: f.write(self.xor)
+                os.symlink(os.path.join(path, 'keys', 'mainnet-blocks.key') if kind == 'abs' else os.path.join('keys', 'mainnet-blocks.key'), os.path.join(path, 'xor.dat'))
+        if getattr(self, 'nested', None) is not None:
+            # a leftover sub-directory `blocks` holding a complete older data directory of its own (index and blk files): it is not named by any record of THIS index
+            self.nested.materialise(os.path.join(path, 'blocks'), ldbw_bin)
         for name, data in self.extra_files.items():
             p = os.path.join(path, name); os.makedirs(os.path.dirname(p), exist_ok=True)
             with open(p, 'wb') as f: f.write(data)
